@@ -1127,9 +1127,14 @@ where
                     let _ = done.send(result);
                     return true; // signal batch_processor to exit — disk state is corrupted
                 }
-                if max_idx > 0 {
-                    *pending_max = (*pending_max).max(max_idx);
-                }
+                // Everything at or above `truncate_from` was just replaced: neither the durable
+                // mark nor the pending (written, not yet fsynced) mark may stay above the new
+                // tail, otherwise entries appended again at those indexes are never persisted
+                // (the IO thread only persists (durable_index, max_index]) and flush() would
+                // short-circuit on a stale durable_index.
+                let keep = truncate_from.saturating_sub(1);
+                this.durable_index.fetch_min(keep, Ordering::AcqRel);
+                *pending_max = if max_idx > 0 { max_idx } else { (*pending_max).min(keep) };
                 let _ = done.send(result);
                 false
             }
